@@ -172,6 +172,75 @@ def r_filter(prog, R):
         r.viol("soa-min(minimum,ttl)", s.name, s.loc(s.ln), "negative-cache lifetime is not min(SOA MINIMUM, SOA ttl)")
 
 
+def r_nottl(prog, R):
+    r = R.rule("R-C08-NOTTL", "a response without any TTL-bearing record never gets the 'no TTL found' sentinel as its lifetime", floor=2, analysis="A-VS typestate from the sentinel to the expiry store")
+    g = prog.func("ares_qcache_calc_minttl")
+    sent = None
+    for b, i, el in g.elements():
+        if el["k"] == "decl":
+            for v in el["vars"]:
+                if v["n"] == "minttl" and v.get("init") is not None:
+                    sent = const_val(v["init"])
+    if not r.require(sent is not None, "calc_minttl: initial value of minttl not found"):
+        return
+    r.info["sentinel"] = sent
+    f = prog.func("ares_qcache_insert_int")
+
+    def from_calc(el):
+        if el["k"] != "asg" or not is_var(strip(el["e"]["l"]), "ttl"):
+            return None
+        rr = strip(el["e"].get("r"))
+        if rr is not None and rr.get("k") == "call":
+            c = rr
+            if c.get("ref"):
+                x = f.call_by_id(c["id"])
+                c = x[2] if x else c
+            return c.get("callee")
+        return "<other>"
+
+    def on_el(extra, blk, i, el, get):
+        src = from_calc(el)
+        if src == "ares_qcache_calc_minttl":
+            return ["RAW"]
+        if src is not None:
+            return ["OK"]
+        return [extra]
+
+    def on_edge(extra, blk, cond, pol, get):
+        if extra != "RAW":
+            return extra
+        for c, p in atoms(cond, pol):
+            op, l, rr = norm_cmp(c, p)
+            if rr is not None and is_var(strip(l), "ttl") and const_val(rr) == sent:
+                if op == "==":
+                    return "SENT"
+                if op == "!=":
+                    return "OK"
+        return extra
+    vs = ValueSets(prog, f, on_el=on_el, on_edge=on_edge, init_extra="OK", cap=2048)
+    n = 0
+    for b, i, el in f.elements():
+        if el["k"] == "asg" and is_field(el["e"]["l"], "expire_ts"):
+            n += 1
+            bad = [st[1] for st in vs.states_at(b, i) if st[1] in ("RAW", "SENT")]
+            if bad:
+                r.viol("expiry never computed from the sentinel", f.name, f.loc(el), "the lifetime reaches 'expire_ts = now + ttl' straight from ares_qcache_calc_minttl without the 'no TTL-bearing record' value (%d) having been replaced: a NODATA answer is cached for max_ttl whatever its SOA says" % sent)
+            else:
+                r.ok("expiry never computed from the sentinel", f.loc(el))
+    r.require(n >= 1, "expire_ts store not found")
+    # calc_minttl counts an answer-section SOA (its TTL is an ordinary TTL there)
+    mf = MustFacts(g, track_calls=False)
+    skipped_answer_soa = False
+    for b in g.blocks.values():
+        br = g.branch(b)
+        if br and "ARES_REC_TYPE_SOA" in render(br[0]) and "ARES_SECTION_ANSWER" not in " ".join(render(x.term["cond"]) for x in g.blocks.values() if x.term and x.term.get("cond") is not None):
+            skipped_answer_soa = True
+    if skipped_answer_soa:
+        r.viol("answer-section SOA counts", g.name, g.loc(g.ln), "calc_minttl skips SOA records in every section: an SOA answer is cached for max_ttl (or not at all) instead of for its own TTL")
+    else:
+        r.ok("answer-section SOA counts", g.loc(g.ln))
+
+
 def r_key(prog, R):
     r = R.rule("R-C08-KEY", "key = opcode, RD, CD, per question type/class/name; map is case-insensitive; same key function for insert and fetch", floor=9, analysis="A-TAB")
     f = prog.func("ares_qcache_calc_key")
@@ -520,6 +589,7 @@ def r_flush(prog, R):
 def run(prog, R, tier):
     R.assume("container primitives behave as their ADTs (C19)")
     r_filter(prog, R)
+    r_nottl(prog, R)
     r_key(prog, R)
     r_order(prog, R)
     r_ttl(prog, R)
